@@ -397,6 +397,16 @@ def check_interp(prog, rep, c):
         return
     lp = loops[0]
     tr = [s for s in lp.body if isinstance(s, ast.Try)]
+    if not tr and len(lp.body) == 1 and isinstance(lp.body[0], ast.If) and lp.body[0].orelse and isinstance(lp.body[0].test, ast.Compare) \
+            and len(lp.body[0].test.ops) == 1 and isinstance(lp.body[0].test.ops[0], ast.In) and field_of(lp.body[0].test.comparators[0]) == "spline":
+        # `if chrgrp in self._spline: <lookup and store> else: <NaN>` is the try / except KeyError of the same lookup (the test is on the very key that is looked up)
+        iff_ = lp.body[0]
+        keys_ = {dump(n.slice) for n in ast.walk(iff_) if isinstance(n, ast.Subscript) and field_of(n.value) == "spline"}
+        if keys_ == {dump(iff_.test.left)}:
+            syn = ast.Try(body=iff_.body, handlers=[ast.ExceptHandler(type=ast.Name(id="KeyError", ctx=ast.Load()), name=None, body=iff_.orelse)], orelse=[], finalbody=[])
+            ast.copy_location(syn, iff_)
+            ast.fix_missing_locations(syn)
+            tr = [syn]
     if len(tr) != 1 or len(lp.body) != 1:
         rep.unrec("R4-interp", g.qualname, "query loop body is not try/except")
         return
